@@ -416,6 +416,12 @@ func (pnf *PrevNextFinder) getPageDiff(pageURL, linkHref string, skip int) (int,
 		}
 	}
 
+	// The common part may end inside a number (page 10 and page 11 share the "1"):
+	// go back to the start of that number so that whole numbers are compared.
+	for commonLen > skip && pageURL[commonLen-1] >= '0' && pageURL[commonLen-1] <= '9' {
+		commonLen--
+	}
+
 	var urlAsNumber int
 	if str := rxNumberAtStart.FindString(pageURL[commonLen:]); str != "" {
 		urlAsNumber, _ = strconv.Atoi(str)
